@@ -24,10 +24,6 @@ HERE = os.path.dirname(os.path.abspath(__file__))
 WORKER = os.path.join(HERE, "c07_worker.py")
 NPROC = min(16, os.cpu_count() or 4)
 
-KEY_RANGE = "reorder_encode-accepts-weight-outside-±255:range-check-compiled-out-by-NDEBUG"
-KEY_EMPTY = "encode-empty-sequence:restart_pos[0]-written-to-malloc(0)-and-stream-undecodable"
-KEY_ZRUN = "encode_section-zrun_values[n_weights]-one-past-the-end:palette-section-equal-to-a-single-zero"
-
 
 def report_head(report):
     return next((ln.strip() for ln in report.split("\n") if "runtime error" in ln or "ERROR: AddressSanitizer" in ln), report[:200])
@@ -49,15 +45,6 @@ def report_site(report):
     except (OSError, IndexError):
         src = ""
     return fn, src
-
-
-def sanitizer_key(report):
-    """the known one-past-the-end write: zrun_values has `size` ints but size+1 runs are stored when every element of
-    the section is coded as a weight, which happens exactly for the section [0] (4-byte region)"""
-    fn, src = report_site(report)
-    if fn == "encode_section" and "zrun_values[n_weights]" in src and "WRITE of size 4" in report and re.search(r"\b4-byte region", report):
-        return KEY_ZRUN
-    return None
 
 
 # ---------------------------------------------------------------------------------------- workers
@@ -355,6 +342,7 @@ def main():
     for _ in range(1 if not ck.thorough else 24):
         alphabets.append(rng.sample(range(-255, 256), 4))
         alphabets.append([0] + rng.sample(range(-255, 256), 3))
+    seq_jobs.append(("exhaustive", []))      # the shortest weight sequence
     for al in alphabets:
         for n in range(1, 7):
             for tup in itertools.product(al, repeat=n):
@@ -593,90 +581,68 @@ def main():
                 small = job
                 ck.violation(f"sanitizer report in the encoder on a valid input ({job['op']}, {len(job.get('seq', job.get('w')))} weights): "
                              f"{report_head(r['stderr'])[:160]} at {report_site(r['stderr'])}",
-                             {"job": small, "report": r["stderr"], "how": "ASan+UBSan build of ethosu/mlw_codec loaded with LD_PRELOAD of the asan runtime"},
-                             key=sanitizer_key(r["stderr"]))
-        # deterministic witnesses of the one-past-the-end write of encode_section (section consisting of one zero)
-        wit = [{"op": "encode", "seq": [0]}, {"op": "encode", "seq": [1 + (i * 7 % 2) for i in range(600)] + [0]}]
+                             {"job": small, "report": r["stderr"], "how": "ASan+UBSan build of ethosu/mlw_codec loaded with LD_PRELOAD of the asan runtime"})
+        # regression inputs: the empty sequence (restart_pos[0] used to be written into malloc(0)) and palette sections consisting of
+        # one zero (encode_section used to store size+1 zero runs in a buffer of size ints)
+        wit = [{"op": "encode", "seq": []}, {"op": "encode", "seq": [0]},
+               {"op": "encode", "seq": [1 + (i * 7 % 2) for i in range(600)] + [0]}]
         cfgw = ArchitectureFeatures.accelerator_configs[Accelerator.Ethos_U55_128]
         wv = [1 + (i * 7 % 2) for i in range(24 * 32)]
         wv[-1] = 0
         wit.append({"op": "reorder", "p": [cfgw.ifm_ublock.depth, cfgw.ofm_ublock.depth, 24, 1, 1, 32, cfgw.ofm_ublock.depth, 0, 0, 8, 8, 8],
                     "w": wv, "shape": [24, 1, 1, 32], "entry": "api", "acc": Accelerator.Ethos_U55_128.value, "dilation": [1, 1]})
-        for job, r in zip(wit, run_jobs(wit, san_dir, san_env, nproc=3)):
+        for job, r in zip(wit, run_jobs(wit, san_dir, san_env, nproc=4)):
             evaluations += 1
             if "crash" in r:
-                ck.count("single_zero_section_sanitizer_report")
                 what = "mlw_codec.encode(%s)" % (job["seq"] if len(job["seq"]) < 5 else "[1,2,…]*300+[0]") if job["op"] == "encode" else \
                     "api.npu_encode_weights(ethos-u55-128, 24x1x1x32 volume over {1,2} whose last weight is 0)"
                 ck.violation(f"{what}: {report_head(r['stderr'])[:140]} at {report_site(r['stderr'])}",
-                             {"job": job, "report": r["stderr"]}, key=sanitizer_key(r["stderr"]))
+                             {"job": job, "report": r["stderr"]})
     except InfraError as e:
         san_note = "sanitizer stage skipped: " + str(e)[:300]
         ck.notes.append(san_note)
 
-    # ------------------------------------------------------------------ 5. weights outside the 9-bit range, empty sequence
+    # ------------------------------------------------------------------ 5. weights outside the signed 9-bit range must be rejected
     oor_jobs, oor_meta = [], []
-    acc0 = accs[0]
+    acc0 = accs[rng.randrange(len(accs))]
     cfg0 = ArchitectureFeatures.accelerator_configs[acc0]
-    for val in (256, -256, 300, -300, 511, -512, 1000):
+    probe_values = [256, -256, 257, -257, 300, -300, 511, -512, 1000, 32767, -32768, 255, -255]
+    for val in probe_values:
         for entry in entries:
-            w = [0] * 32
-            w[0], w[9] = val, 3
+            w = [rng.randint(-3, 3) for _ in range(32)]
+            w[rng.choice([0, 9, 31])] = val
             p = [cfg0.ifm_ublock.depth, cfg0.ofm_ublock.depth, 4, 1, 1, 8, cfg0.ofm_ublock.depth * 2, 0, 0, 8, 8, 8]
             oor_jobs.append({"op": "reorder", "p": p, "w": w, "shape": [4, 1, 1, 8], "entry": entry, "acc": acc0.value,
                              "dilation": [1, 1], "layout": "c", "dtype": "int16"})
             oor_meta.append((entry, val))
-    for val in (256, -256, 300, -300):
-        oor_jobs.append({"op": "encode", "seq": [val, 0, 0, 3]})
+        oor_jobs.append({"op": "encode", "seq": [3, val, 0, 0]})
         oor_meta.append(("mlw_codec.encode", val))
-    oor_res = run_jobs(oor_jobs, ext, nproc=4)
-    oor_lines, oor_idx = [], []
-    for i, (job, r) in enumerate(zip(oor_jobs, oor_res)):
-        if "enc" in r and job["op"] == "reorder":
-            oor_lines.append("mlwcheck %s %s %s" % (csv(job["p"]), csv(job["w"]), r["enc"] or "-"))
-            oor_idx.append(i)
-        elif "enc" in r:
-            oor_lines.append("mlwseq %s %s" % (csv(job["seq"]), r["enc"] or "-"))
-            oor_idx.append(i)
-    oor_verdict = dict(zip(oor_idx, lean_parallel(oor_lines)))
-    for i, (job, (entry, val), r) in enumerate(zip(oor_jobs, oor_meta, oor_res)):
-        evaluations += 1
-        name = {"codec": "mlw_codec.reorder_encode", "wc": "weight_compressor.encode_weights", "api": "api.npu_encode_weights"}.get(entry, entry)
-        if "exc" in r:
-            ck.count("out_of_range_rejected_" + r["exc"].split(":")[0])
-            continue
-        ck.count("out_of_range_accepted")
-        v = oor_verdict.get(i, "process died: " + str(r.get("crash")) + " " + r.get("stderr", "")[:120])
-        dec0 = r.get("dec", [None])[0] if r.get("dec") else None
-        ck.violation(f"{name} accepts the weight {val} (outside -255..255) instead of rejecting it; C decoder returns {dec0} at that position; "
-                     f"Lean Spec on the returned stream: {v[:120]}",
-                     {"entry": name, "value": val, "job": job, "result": {k: (x if k != 'dec' else x[:16]) for k, x in r.items()}, "spec_verdict": v[:300]},
-                     key=KEY_RANGE if entry != "mlw_codec.encode" else None)
-    # the same under the sanitizers: where the first wild access happens
+    must_accept = [x == "1" for x in common.run_model(["mlwvalid " + csv(j.get("seq", j.get("w"))) for j in oor_jobs])]
+    oor_res = run_jobs(oor_jobs, ext, nproc=8)
+    runs = [("", oor_jobs, oor_meta, must_accept, oor_res)]
     if san_note is None:
-        sres = run_jobs([j for j, m in zip(oor_jobs, oor_meta) if m[0] == "codec"][:4], san_dir, san_env, nproc=4)
-        for (entry, val), r in zip([m for m in oor_meta if m[0] == "codec"][:4], sres):
+        sel = [i for i, m in enumerate(oor_meta) if m[0] in ("codec", "mlw_codec.encode")]
+        runs.append((" (ASan+UBSan build)", [oor_jobs[i] for i in sel], [oor_meta[i] for i in sel], [must_accept[i] for i in sel],
+                     run_jobs([oor_jobs[i] for i in sel], san_dir, san_env, nproc=8)))
+    for tag, jobs_, meta_, acc_, res_ in runs:
+        for job, (entry, val), ok_in, r in zip(jobs_, meta_, acc_, res_):
             evaluations += 1
+            name = {"codec": "mlw_codec.reorder_encode", "wc": "weight_compressor.encode_weights", "api": "api.npu_encode_weights"}.get(entry, entry)
             if "crash" in r:
-                ck.count("out_of_range_sanitizer_report")
-                ck.violation(f"mlw_codec.reorder_encode with weight {val}: {report_head(r['stderr'])[:200]}",
-                             {"value": val, "report": r["stderr"]}, key=KEY_RANGE)
-    # the empty sequence (shortest element of "all weight sequences")
-    er = run_jobs([{"op": "encode", "seq": [], "decode": False}], ext, nproc=1)[0]
-    evaluations += 1
-    if "enc" in er:
-        ev = common.run_model(["mlwseq - %s" % (er["enc"] or "-")])[0]
-        ck.count("empty_sequence_spec_" + ev.split(" ")[0].split(":")[0])
-        if not ev.startswith("ok "):
-            ck.violation(f"mlw_codec.encode([]) returns a stream the reference decoder rejects: Lean Spec: {ev[:100]} (stream {er['enc'][:64]})",
-                         {"entry": "mlw_codec.encode", "sequence": [], "stream_hex": er["enc"], "spec_verdict": ev}, key=KEY_EMPTY)
-    elif "crash" in er:
-        ck.violation("mlw_codec.encode([]) takes the process down", {"sequence": [], "result": er}, key=KEY_EMPTY)
-    if san_note is None:
-        sr = run_jobs([{"op": "encode", "seq": [], "decode": False}], san_dir, san_env, nproc=1)[0]
-        evaluations += 1
-        if "crash" in sr:
-            ck.violation(f"mlw_codec.encode([]): {report_head(sr['stderr'])[:200]}", {"sequence": [], "report": sr["stderr"]}, key=KEY_EMPTY)
+                ck.violation(f"{name} with the weight {val}{tag} takes the process down: {report_head(r['stderr'])[:160]}",
+                             {"entry": name, "value": val, "job": job, "report": r["stderr"]})
+            elif ok_in:
+                ck.count("range_probe_valid_" + ("accepted" if "enc" in r else "rejected"))
+                if "enc" not in r:
+                    ck.violation(f"{name} rejects the valid weight {val}{tag}: {r.get('exc')}", {"entry": name, "value": val, "job": job, "result": r})
+            elif "exc" in r:
+                ck.count("out_of_range_rejected_" + r["exc"].split(":")[0])
+            else:
+                ck.count("out_of_range_accepted")
+                dec = r.get("dec") or []
+                ck.violation(f"{name} accepts the weight {val} (Lean: outside the signed 9-bit range, must be rejected){tag} and returns a "
+                             f"{len(r.get('enc', '')) // 2}-byte stream that decodes to {dec[:4]}…",
+                             {"entry": name, "value": val, "job": job, "result": {k: (x if k != 'dec' else x[:40]) for k, x in r.items()}})
 
     # ------------------------------------------------------------------ outcome
     if decoder_disagreements:
